@@ -293,6 +293,15 @@ def rule_references_table(ctx: Ctx, rule: str) -> None:
         ok2, why2, rows2 = compare_table(paths2, ev2.bitnames, oracle2, proj2, vocab, alias=char_alias(paths2, 'next(i)'), where=f'{cls}._references',
                                          exclusive=lambda a: 'c' if a.startswith('c=') else None)
         ctx.count('decision_table_rows', rows2)
+        # whatever follows the backslash belongs to the escape: exactly one character is taken from the iterator on every path
+        from ..symeval import focus as _fc
+        reads = set()
+        for p_ in paths2:
+            _fc(p_)
+            reads.add(sum(1 for e in p_.of('call') if e[1] == 'next' and [_tag(a) for a in e[2]] == ['i']))
+        ctx.ob(rule, f'{mod}:{cls}._references/consumes-the-escaped-character', reads == {1}, repo.loc(mod, f2.node),
+               'next(i) exactly once on every path', f'reads per path: {sorted(reads)}',
+               witness="fnmatch.translate(fnmatch.escape('a|b'), flags=SPLIT) must stay one pattern: the `|` after the backslash is not a split point")
         ctx.ob(rule, f'{mod}:{cls}._references/table', ok2, repo.loc(mod, f2.node),
                'raise PathNameException iff in a bracket and (`\\\\` with bslash_abort, or `\\/` ' + ('with pathname)' if has_pathname else 'always); returns the consumed separator'),
                f'{rows2} rows agree' if ok2 else why2[:300],
